@@ -27,7 +27,9 @@ ASSUMPTIONS = [
 HEALTH = {"near_limit": 0.1}
 EXHAUSTIVE = {"quick": ["short branches: 19 mnemonics x displacement -140..+140",
                         "long branches: 19 mnemonics x both directions x distance 0..140",
-                        "label,PCR: 7 mnemonics x plain/indirect x k in -2,0,2 x both directions x distance 0..140"],
+                        "label,PCR: 7 mnemonics x plain/indirect x k in -2,0,2 x both directions x distance 0..140",
+                        "one PCR statement spanning 1-6 unsized PCR statements (far/near) x distance 118..136 x both directions",
+                        "two crossing PCR statements x gaps 112..129 x 112..129"],
               "thorough": ["as quick, plus nested PCR triples over a 10x10x10 gap grid"]}
 
 SHORT = ["BCC", "BCS", "BEQ", "BGE", "BGT", "BHI", "BHS", "BLE", "BLO", "BLS", "BLT", "BMI", "BNE", "BPL", "BRA", "BRN",
@@ -153,6 +155,19 @@ def enumerated(tier, seed):
                 for g3 in small:
                     for dirs in ("ff", "fb", "bf", "bb"):
                         yield nested2(mo, mi, g1, g2, g3, dirs)
+    # 6. one PCR statement whose span holds m other not-yet-sized PCR statements (far -> 16-bit, near -> 8-bit),
+    #    its own true displacement swept across the 8-bit limit
+    for mo in ("LDA", "LDY"):
+        for m in range(1, 7):
+            for far in (True, False):
+                for d in range(118, 137):
+                    for forward in (True, False):
+                        yield nested_many(mo, m, far, d, forward)
+    # 7. two crossing PCR statements (forward one followed by a backward one), both near the limit
+    for ma, mb in (("LEAX", "LEAY"), ("LDA", "LDY"), ("LDY", "LDA")):
+        for n1 in range(112, 130):
+            for n2 in range(112, 130):
+                yield crossing(ma, mb, n1, n2)
     if tier == "thorough":
         g = [0, 1, 40, 41, 42, 43, 44, 45, 80, 120]
         for a in g:
@@ -173,6 +188,28 @@ def nested2(mo, mi, g1, g2, g3, dirs):
         items += fill(g1, 1) + [inner] + fill(g2, 2) + [outer] + fill(g3, 1)
     items += [dict(t="nop", label="TAIL"), dict(t="nop")]
     return dict(org=0x0300, items=items)
+
+
+def nested_many(mo, m, far, d, forward):
+    """outer statement spans m inner PCR statements; d = bytes between outer and its target assuming the inner
+    statements take their final size (far: 4 bytes each, near: 3 bytes each)"""
+    inner_size = 4 if far else 3
+    gap = max(0, d - m * inner_size)
+    inner = [dict(t="pcr", mn="LEAY", ind=False, to="FAR" if far else "NEAR", k=0) for _ in range(m)]
+    outer = dict(t="pcr", mn=mo, ind=False, to="TGT", k=0)
+    items = [dict(t="nop", label="NEAR")]
+    if forward:
+        items += [outer] + inner + fill(gap, 0) + [dict(t="nop", label="TGT")]
+    else:
+        items += [dict(t="nop", label="TGT")] + fill(gap, 0) + inner + [outer]
+    items += [dict(t="rmb", n=400), dict(t="nop", label="FAR")]
+    return dict(org=0x0500, items=items)
+
+
+def crossing(ma, mb, n1, n2):
+    items = [dict(t="nop", label="BACK"), dict(t="rmb", n=n1), dict(t="pcr", mn=ma, ind=False, to="FWD", k=0),
+             dict(t="pcr", mn=mb, ind=False, to="BACK", k=0), dict(t="rmb", n=n2), dict(t="nop", label="FWD")]
+    return dict(org=0x0600, items=items)
 
 
 def nested3(a, b, c):
